@@ -1,5 +1,6 @@
 import XtModel.Model.Wire
 import XtModel.Model.Encoding
+import XtModel.Model.Input
 
 /-!
 Native driver: one case per input line, one answer per output line
@@ -56,9 +57,60 @@ def encoding (fs : List String) : String :=
     | _, _ => "bad-case"
   | _ => "bad-case"
 
+
+/-! ### Engine `handle`: programs over the rewindable input handle -/
+
+def parseOp (s : String) : Option Input.Op :=
+  match s.toList with
+  | ['B'] => some .borrow
+  | ['C'] => some .intoCow
+  | 'R' :: ds => (String.ofList ds).toNat?.map .read
+  | 'P' :: ds => (String.ofList ds).toNat?.map .prefix
+  | 'I' :: ds => (String.ofList ds).toNat?.map .intoInput
+  | _ => none
+
+def parseOps (s : String) : Option (List Input.Op) :=
+  if s = "-" then some [] else (s.splitOn ",").mapM parseOp
+
+/-- `-` = uncapped, `3,1,2` = caps used once each, `~3,1` = caps cycling forever. -/
+def parseCaps (s : String) : Option (List Nat × Bool) :=
+  match s.toList with
+  | '~' :: rest => (parseNats (String.ofList rest)).map (·, true)
+  | _ => (parseNats s).map (·, false)
+
+def parseOptNat (s : String) : Option (Option Nat) :=
+  if s = "-" then some none else s.toNat?.map some
+
+def siteName : Input.Site → String
+  | .unreadSub => "unread-sub" | .bufPrefix => "buf-prefix"
+  | .bufRest => "buf-rest" | .bufSource => "buf-source"
+
+def obsTok : Input.Obs → String
+  | .refSlice bs => "rs:" ++ toHex bs
+  | .refReader => "rr"
+  | .read bs => "r:" ++ toHex bs
+  | .prefix bs => "p:" ++ toHex bs
+  | .inputSlice bs => "is:" ++ toHex bs
+  | .inputReader bs => "ir:" ++ toHex bs
+  | .cow bs => "c:" ++ toHex bs
+  | .err _ _ => "e"
+  | .skipped => "s"
+  | .panic s => "panic:" ++ siteName s
+
+def handle (fs : List String) : String :=
+  match fs with
+  | ["handle", hex, caps, fail, ops] =>
+    match parseHex hex, parseCaps caps, parseOptNat fail, parseOps ops with
+    | some bs, some (cs, cyc), some fa, some ops =>
+      let obs := Input.handleProgram (Input.Source.new bs cs cyc fa) ops
+      if obs.isEmpty then "-" else " ".intercalate (obs.map obsTok)
+    | _, _, _, _ => "bad-case"
+  | _ => "bad-case"
+
 def answer (fs : List String) : String :=
   match fs with
   | "encdetect" :: _ | "reencode" :: _ | "reencstream" :: _ => encoding fs
+  | "handle" :: _ => handle fs
   | _ => "bad-engine"
 
 partial def loop (h : IO.FS.Stream) (out : IO.FS.Stream) : IO Unit := do
